@@ -45,7 +45,7 @@ func swissquoteWrite(rows []stRow) []byte {
 	recs := [][]string{{"Datum", "Auftrag #", "Transaktionen", "Symbol", "Name", "ISIN", "Anzahl", "Stückpreis", "Kosten", "Aufgelaufene Zinsen", "Nettobetrag", "Saldo", "Währung"}}
 	for k := len(rows) - 1; k >= 0; k-- { // newest first, as exported
 		r := rows[k]
-		dt := dayToTime(r.Z).Format("02-01-2006") + fmt.Sprintf(" %02d:%02d:07", 7+k%10, 3*k%60)
+		dt := dayToTime(r.Z).Format("02-01-2006") + fmt.Sprintf(" %02d:%02d:07", (k*7+r.Z)%24, 3*k%60)
 		line := func(typ, sym, name, isin, qty string, price, cost, net int, cur string) {
 			recs = append(recs, []string{dt, fmt.Sprintf("%08d", 76396000+k), typ, sym, name, isin, qty, apos(price), apos(cost), "0.00", apos(net), apos(r.Bal), cur})
 		}
@@ -133,14 +133,14 @@ func ibWrite(rows []stRow, finals []stEff, endZ int) []byte {
 		case "trade":
 			q := r.Extra[0].V / 100
 			price := abs(r.Amt) * 100 / abs(q) / 100
-			w("Trades", "Data", "Order", "Stocks", r.Cur, r.Extra[0].C, d+fmt.Sprintf(", 10:%02d:49", k%60), commas(q * 100)[:len(commas(q*100))-3], amt2(price), amt2(price), commas(r.Amt), amt2(-r.Fee), "0", "0", "40.425", "O", "")
+			w("Trades", "Data", "Order", "Stocks", r.Cur, r.Extra[0].C, d+fmt.Sprintf(", %02d:%02d:49", (k*7+r.Z)%24, k%60), commas(q * 100)[:len(commas(q*100))-3], amt2(price), amt2(price), commas(r.Amt), amt2(-r.Fee), "0", "0", "40.425", "O", "")
 		case "forex":
 			o := r.Extra[0]
 			fee := 0
 			if len(r.Extra) > 1 {
 				fee = r.Extra[1].V
 			}
-			w("Trades", "Data", "Order", "Forex", r.Cur, o.C+"."+r.Cur, d+fmt.Sprintf(", 11:%02d:34", k%60), commas(o.V), "1.03371", "", commas(r.Amt)+"433"[:3*(k%2)], amt2(fee), "", "", "", "3.446", "")
+			w("Trades", "Data", "Order", "Forex", r.Cur, o.C+"."+r.Cur, d+fmt.Sprintf(", %02d:%02d:34", (k*5+r.Z+13)%24, k%60), commas(o.V), "1.03371", "", commas(r.Amt)+"433"[:3*(k%2)], amt2(fee), "", "", "", "3.446", "")
 		case "transfer":
 			w("Deposits & Withdrawals", "Data", r.Cur, d, r.Text, commas(r.Amt))
 		case "dividend":
@@ -162,7 +162,7 @@ func wiseWrite(rows []stRow) []byte {
 		"Source name", "Source amount (after fees)", "Source currency", "Target name", "Target amount (after fees)", "Target currency", "Exchange rate", "Reference", "Batch"}}
 	for k := len(rows) - 1; k >= 0; k-- {
 		r := rows[k]
-		ts := dayToTime(r.Z).Format("2006-01-02") + fmt.Sprintf(" 15:%02d:30", k%60)
+		ts := dayToTime(r.Z).Format("2006-01-02") + fmt.Sprintf(" %02d:%02d:30", (k*11+r.Z)%24, k%60)
 		feeA, feeC := "", ""
 		if r.Fee != 0 || k%2 == 0 {
 			feeA, feeC = amt2(r.Fee), r.Cur
